@@ -167,7 +167,7 @@ class C19(Prop):
             return bytes(rng.randrange(1, 256) for _ in range(L))
         return bytes(rng.choice(b"abcdefghijklmnopqrstuvwxyz0123456789_.") for _ in range(L))
 
-    def gen_keyhash(self, rng, nops, default=False, small_keys=False):
+    def gen_keyhash(self, rng, nops, default=False, small_keys=False, pile=False):
         ops = []
         if default:
             ops.append("kh_default")
@@ -180,11 +180,16 @@ class C19(Prop):
         pool2, seen2 = [], set()
         # a long history must be able to pile up thousands of keys: few reuses per case
         p_clone = min(0.03, 3.0 / max(1, nops))
-        p_reuse = min(0.015, 1.2 / max(1, nops))
+        p_reuse = 0.0 if pile else min(0.015, 1.2 / max(1, nops))
+        serial = 0
         for _ in range(nops):
             r = rng.random()
             if r < 0.5:
-                if small_keys:
+                if pile:
+                    # pile-up history: mostly brand-new keys, so that the table passes several growth thresholds
+                    serial += 1
+                    k = (b"%x" % serial) + bytes(rng.choice(b"xyz") for _ in range(rng.randrange(0, 3)))
+                elif small_keys:
                     k = bytes(rng.choice(b"abcdefgh") for _ in range(rng.randrange(0, 7)))
                 else:
                     k = self.rand_key(rng, pool)
@@ -211,9 +216,12 @@ class C19(Prop):
                 if rng.random() < 0.5:
                     ops.append("kh_swap")           # continue on the clone (the original stays alive in the other slot)
                 cloned = True
-            elif cloned and r < 0.93 + 2 * p_clone:
-                ops.append("kh_swap")
-                pool, seen, pool2, seen2 = pool2, seen2, pool, seen
+            elif r < 0.93 + 2 * p_clone:
+                if cloned and not pile:
+                    ops.append("kh_swap")
+                    pool, seen, pool2, seen2 = pool2, seen2, pool, seen
+                else:
+                    ops.append("num")
             elif r < 0.93 + 2 * p_clone + p_reuse:
                 ops.append("kh_reuse"); pool = []; seen = set()
             else:
@@ -392,9 +400,13 @@ class C19(Prop):
             add("kh-default%d" % c, self.gen_keyhash(rng, 9000 if c == 0 else rng.choice([1200, 2500]), default=True, small_keys=(c % 2 == 0)))
         for c in range(16 if quick else 100):
             add("kh-small%d" % c, self.gen_keyhash(rng, 3000, small_keys=True))
+        # pile-up histories: default table 128 -> 1024 -> 8192 (> 3072 keys); tiny table through five growths
+        for c in range(2 if quick else 10):
+            add("kh-pile%d" % c, self.gen_keyhash(rng, 8000 if quick else 30000, default=(c % 2 == 0), pile=True))
         if not quick:
-            add("kh-long0", self.gen_keyhash(rng, 100000, default=True, small_keys=True))
-            add("kh-long1", self.gen_keyhash(rng, 100000, small_keys=True))
+            add("kh-long0", self.gen_keyhash(rng, 100000, default=True, pile=True))
+            add("kh-long1", self.gen_keyhash(rng, 100000, pile=True))
+            add("kh-long2", self.gen_keyhash(rng, 100000, small_keys=True))
         n = 1000 if quick else 8000
         big = 600 if quick else 3000
         for c in range(n):
